@@ -281,7 +281,7 @@ impl AsCborValue for CoseKdfContext {
 
         // Remove array elements in reverse order to avoid shifts.
         let mut supp_priv_info = Vec::with_capacity(a.len() - 4);
-        { let mut i__ = a.len(); while i__ > 4 { i__ -= 1; let i = i__;
+        { let mut i__ = a.len(); while i__ > 4« invariant 4 <= i__, a@.len() == i__, decreases i__» { i__ -= 1; let i = i__;
             supp_priv_info.push(a.remove(i).try_as_bytes()?);
         } }
         supp_priv_info.reverse();
